@@ -23,14 +23,14 @@ func init() {
 	register(&PropertyDef{
 		ID:          "C10",
 		Title:       "A crash at any write leaves the secret store consistent and usable",
-		Explanation: "Decides write-order and persistence constraints from the SSA of pkg/secretstore, with datastore/keystore effects labelled by the namespace constant that reaches the key argument: (D1) on the open path the key is stored under the message CID before the precomputed key is deleted, and the next precomputed key is written before the chain key is advanced, in every function where two such writes are distinct sites; (D2) every success return of SealEnvelope is dominated by an accepted Put of the chain key (the only tolerated early return is the monotone counter guard), and the precomputed key is written before the chain key; (D3) registration writes/commits the precomputed window before the chain key; (D4) get-or-generate named keys (the lookup being keystore.Get or a read-only module helper around it): the generated key is returned only after keystore.Put of that same value succeeded under the looked-up name, and the lookup precedes the generation; (D5) errors of the mutating operations on these namespaces are tested and reject; (D7, same analysis as C09.D7, for the keystore) a named key is generated only when the keystore lookup reported exactly keystore.ErrNoSuchKey (tested on the lookup's error directly, or inside a read-only module helper that hands the result on as a (found=false, err=nil) outcome: then the creator must have tested the helper's error nil and found false, and every such return of the helper must be on the sentinel side), and every module keystore implementation returns that sentinel only for the datastore's not-found outcome (or after a successful read): a read fault never makes the device mint new account/device keys over the stored ones; (D8, who may wrap) every constructor of a datastore (or keystore) value called on the construction path of the secret store - the functions reachable from the exported constructors, plus the argument expressions of their module callers - is one of the known write-through ones (keytransform.Wrap, namespace.Wrap, sync.MutexWrap, the NewMapDatastore leaf); module types on that path that are datastores/keystores themselves take Put/Delete from the embedded datastore interface or perform the write on the wrapped store before returning success; anything else (autobatch.NewAutoBatching, delayed, a home-made buffer) is reported, so keys are never handed out while they exist only in a write buffer; (D9) every success return that follows a successful Batch() passes a Commit that succeeded. Each constraint covers every crash point between the two writes. Not decided: atomicity of datastore batches, partial non-batched window writes, exhaustive crash-point x workload exploration.",
+		Explanation: "Decides write-order and persistence constraints from the SSA of pkg/secretstore, with datastore/keystore effects labelled by the namespace constant that reaches the key argument: (D1) on the open path the key is stored under the message CID before the precomputed key is deleted, and the next precomputed key is written before the chain key is advanced, in every function where two such writes are distinct sites; (D2) every success return of SealEnvelope is dominated by an accepted Put of the chain key (the only tolerated early return is the monotone counter guard), and the precomputed key is written before the chain key; (D3) registration writes/commits the precomputed window before the chain key; (D4) get-or-generate named keys (the lookup being keystore.Get or a read-only module helper around it): the generated key is returned only after keystore.Put of that same value succeeded under the looked-up name, and the lookup precedes the generation; (D5) errors of the mutating operations on these namespaces are tested and reject; (D7, same analysis as C09.D7, for the keystore) a named key is generated only when the keystore lookup reported exactly keystore.ErrNoSuchKey (tested on the lookup's error directly, or inside a read-only module helper that hands the result on as a (found=false, err=nil) outcome: then the creator must have tested the helper's error nil and found false, and every such return of the helper must be on the sentinel side), and every module keystore implementation returns that sentinel only for the datastore's not-found outcome (or after a successful read): a read fault never makes the device mint new account/device keys over the stored ones; (D8, who may wrap) every constructor of a datastore (or keystore) value called on the construction path of the secret store - the functions reachable from the exported constructors, plus the argument expressions of their module callers - is one of the known write-through ones (keytransform.Wrap, namespace.Wrap, sync.MutexWrap, the NewMapDatastore leaf); module types on that path that are datastores/keystores themselves take Put/Delete from the embedded datastore interface or perform the write on the wrapped store before returning success; anything else (autobatch.NewAutoBatching, delayed, a home-made buffer) is reported, so keys are never handed out while they exist only in a write buffer; (D9) every success return that follows a successful Batch() passes a Commit that succeeded. Each constraint covers every crash point between the two writes. Steps held in a local table of closures run by a forward range loop count as the sequence of the table's elements (element k before element k+1); a table run in any other way (backwards, by computed index) counts as unordered. Not decided: atomicity of datastore batches, partial non-batched window writes, exhaustive crash-point x workload exploration.",
 		Trusted:     []string{"go/packages+go/ssa (x/tools v0.29.0)", "go-datastore Put/Delete/Commit are durable when they return nil", "ipfs keystore Put/Get semantics", "go-datastore keytransform/namespace/sync wrappers and MapDatastore perform each write before returning (read from their source, v0.9.1)"},
 		Assumptions: []string{"one secret store instance per datastore; effects identified by the namespace constants of pkg/secretstore"},
 		Floors:      map[string]int{"D1": 2, "D2": 2, "D3": 1, "D4": 2, "D5": 6, "D6": 6, "D7": 2, "D8": 5, "D9": 1},
 		Borrows: []Borrow{
 			{From: "C11", Rules: []string{"D6"}, Why: "a named key is looked up, generated on a miss and stored in one locked section: otherwise two first uses both generate, the second store overwrites the first, and one caller goes on using a key that is not the one found in the store after a restart"},
 		},
-		Run:         runC10,
+		Run: runC10,
 	})
 }
 
@@ -207,21 +207,78 @@ func sortedFuncs(m map[*ssa.Function]int) []*ssa.Function {
 	return out
 }
 
-// orderRule checks e1 before e2 in every function of scope where both have distinct sites.
-func orderRule(c *Ctx, rule, label string, scope map[*ssa.Function]int, e1, e2 EffPred, n1name, n2name string) int {
-	ei := c.W.effects()
-	instances := 0
-	for _, fn := range sortedFuncs(scope) {
-		bad, n1, n2 := ei.orderViolations(fn, e1, e2)
-		if n1 == 0 || n2 == 0 {
+// c10VSite is an effect site, or - for a call through a local table of closures (see
+// c09Tables) - one element of the table: the loop over the table is the sequence of its
+// elements.
+type c10VSite struct {
+	effectSite
+	Seq   int // element index in the table, -1 for an ordinary site
+	Table *c09TableCall
+}
+
+func c10VirtualSites(w *World, fn *ssa.Function) []c10VSite {
+	ei := w.effects()
+	ti := c09Tables(w)
+	var out []c10VSite
+	for _, s := range ei.sitesIn(fn) {
+		tc := ti.bySite[s.Instr]
+		if tc == nil {
+			out = append(out, c10VSite{effectSite: s, Seq: -1})
 			continue
 		}
-		// need at least one pair of distinct sites
+		for k, el := range tc.Elems {
+			var effs []Effect
+			for e := range ei.summaryOf(el) {
+				effs = append(effs, e)
+			}
+			if len(effs) == 0 {
+				continue
+			}
+			out = append(out, c10VSite{effectSite: effectSite{Instr: s.Instr, Effects: effs, Callee: el}, Seq: k, Table: tc})
+		}
+	}
+	return out
+}
+
+// c10After: y can execute after x.
+func c10After(x, y c10VSite) bool {
+	if x.Instr == y.Instr && x.Table != nil {
+		if x.Table.Ordered {
+			return y.Seq > x.Seq // a forward range over the literal: each element once, in order
+		}
+		return y.Seq != x.Seq
+	}
+	return instrReaches(x.Instr.(ssa.Instruction), y.Instr.(ssa.Instruction))
+}
+
+// orderRule checks e1 before e2 in every function of scope where both have distinct sites.
+func orderRule(c *Ctx, rule, label string, scope map[*ssa.Function]int, e1, e2 EffPred, n1name, n2name string) int {
+	instances := 0
+	for _, fn := range sortedFuncs(scope) {
+		var s1, s2 []c10VSite
+		for _, v := range c10VirtualSites(c.W, fn) {
+			if v.has(e1) {
+				s1 = append(s1, v)
+			}
+			if v.has(e2) {
+				s2 = append(s2, v)
+			}
+		}
+		if len(s1) == 0 || len(s2) == 0 {
+			continue
+		}
+		// need at least one pair of distinct sites (a single site carrying both is ordered
+		// inside its callee)
 		distinct := false
-		for _, a := range ei.sitesWith(fn, e1) {
-			for _, b := range ei.sitesWith(fn, e2) {
-				if a.Instr != b.Instr {
-					distinct = true
+		var bad [][2]c10VSite
+		for _, b := range s2 {
+			for _, a := range s1 {
+				if a.Instr == b.Instr && a.Seq == b.Seq {
+					continue
+				}
+				distinct = true
+				if c10After(b, a) {
+					bad = append(bad, [2]c10VSite{b, a})
 				}
 			}
 		}
@@ -231,10 +288,16 @@ func orderRule(c *Ctx, rule, label string, scope map[*ssa.Function]int, e1, e2 E
 		instances++
 		c.analysed(fn)
 		construct := fnName(fn) + "+" + label
+		where := func(v c10VSite) string {
+			if v.Table != nil {
+				return fmt.Sprintf("%s (step %d of the table run at %s)", c.pos(v.Callee.Pos()), v.Seq+1, c.pos(posOf(v.Instr)))
+			}
+			return c.pos(posOf(v.Instr))
+		}
 		if len(bad) > 0 {
-			c.fail(rule, construct, posOf(bad[0][0].Instr), "%s at %s can be followed by %s at %s: a crash between them breaks the store", n2name, c.pos(posOf(bad[0][0].Instr)), n1name, c.pos(posOf(bad[0][1].Instr)))
+			c.fail(rule, construct, posOf(bad[0][0].Instr), "%s at %s can be followed by %s at %s: a crash between them breaks the store", n2name, where(bad[0][0]), n1name, where(bad[0][1]))
 		} else {
-			c.ok(rule, construct, fn.Pos(), "%s always precedes %s (%d/%d sites)", n1name, n2name, n1, n2)
+			c.ok(rule, construct, fn.Pos(), "%s always precedes %s (%d/%d sites)", n1name, n2name, len(s1), len(s2))
 		}
 	}
 	return instances
@@ -242,6 +305,7 @@ func orderRule(c *Ctx, rule, label string, scope map[*ssa.Function]int, e1, e2 E
 
 func runC10(c *Ctx) {
 	w := c.W
+	c.count("local_closure_tables", len(c09Tables(w).bySite)) // completes the call graph: must come first
 	ei := w.effects()
 	open := secretStoreMethod(w, "OpenEnvelopePayload")
 	seal := secretStoreMethod(w, "SealEnvelope")
